@@ -83,17 +83,17 @@ fn full_image_contract() {
     kani::assume(px < iw && py < ih);
     if full {
         assert!(in_frame(x0, y0, w, h, px as i64, py as i64),
-            "[C05] test_full_image => every sample of the image canvas is covered by the frame rectangle");
+            "[C05,C14] test_full_image => every sample of the image canvas is covered by the frame rectangle");
     } else {
         // (<=) a rectangle that contains two opposite corners of the image contains the image
         assert!(!(in_frame(x0, y0, w, h, 0, 0) && in_frame(x0, y0, w, h, iw as i64 - 1, ih as i64 - 1)),
-            "[C05] !test_full_image => some corner of the image canvas is outside the frame rectangle (crop offset and size both count)");
+            "[C05,C14] !test_full_image => some corner of the image canvas is outside the frame rectangle (crop offset and size both count)");
     }
     // resets_canvas = full_frame && mode == kReplace, full_frame = !have_crop || covers
     let mode = any_blend_mode();
     let rc = FrameHeader::resets_canvas(mode, p);
     assert!(rc == (mode == BlendMode::Replace && (!have_crop || full)),
-        "[C05] resets_canvas <=> kReplace blending and (no crop or the crop covers the image)");
+        "[C05,C14] resets_canvas <=> kReplace blending and (no crop or the crop covers the image)");
     if rc && have_crop {
         assert!(in_frame(x0, y0, w, h, px as i64, py as i64), "[C05] a cropped frame that resets the canvas covers every canvas sample");
     }
